@@ -64,31 +64,33 @@ func TestC20(t *testing.T) {
 		Assumptions: []string{"entry point is packets1.ReadPacket on a reader that returns one datagram per Read, as both the gateway and the client use it"},
 		Exhaustive:  exhaustiveShort,
 		Gen:         func(t *rapid.T) dgramCase { return dgramCase{B: sngen.Datagram(t)} },
-		Run: func(c dgramCase) (r vf.Result) {
-			pkt, err, pan := decodeImpl(c.B)
-			if pan != nil {
-				r.Add(*pan)
-				return
-			}
-			if (pkt == nil) == (err == nil) {
-				r.Fail("decode-neither", "ReadPacket returned pkt=%v err=%v", pkt, err)
-			}
-			r.NonTrivial = reachesTypeDecoder(c.B)
-			if err == nil {
-				r.Label("accepted")
-				// the packet's Stringer and Pack must not panic either (logging and re-sending paths)
-				if pan := vf.Recover("decoded-string-panic", func() { _ = pkt.String() }); pan != nil {
-					r.Add(*pan)
-				}
-			} else {
-				r.Label("rejected")
-			}
-			if len(c.B) > 0 && c.B[0] == 1 {
-				r.Label("long-form")
-			}
-			return
-		},
+		Run: runC20,
 	})
+}
+
+func runC20(c dgramCase) (r vf.Result) {
+	pkt, err, pan := decodeImpl(c.B)
+	if pan != nil {
+		r.Add(*pan)
+		return
+	}
+	if (pkt == nil) == (err == nil) {
+		r.Fail("decode-neither", "ReadPacket returned pkt=%v err=%v", pkt, err)
+	}
+	r.NonTrivial = reachesTypeDecoder(c.B)
+	if err == nil {
+		r.Label("accepted")
+		// the packet's Stringer and Pack must not panic either (logging and re-sending paths)
+		if pan := vf.Recover("decoded-string-panic", func() { _ = pkt.String() }); pan != nil {
+			r.Add(*pan)
+		}
+	} else {
+		r.Label("rejected")
+	}
+	if len(c.B) > 0 && c.B[0] == 1 {
+		r.Label("long-form")
+	}
+	return
 }
 
 func normJSON(p snref.Pkt) string {
